@@ -33,6 +33,7 @@ var (
 	flagChildOut = flag.String("child-out", "", "internal: results file of the child")
 	flagChildD42 = flag.Bool("child-d42", false, "internal: run the D42 replay in this child process")
 	flagChildPar = flag.Int("child-par", 0, "internal: scenarios in flight")
+	flagChildD71 = flag.Bool("child-d71", false, "internal: run the D71 replay (Close() while sending) in this child process")
 	flagChildD70 = flag.Bool("child-d70", false, "internal: run the D70 replay (ApplyConfig while sending) in this child process")
 )
 
@@ -208,6 +209,15 @@ func crashClass(sp scenarioSpec) string {
 
 // childMain: run the jobs of the spec file, stream records.
 func childMain(env *vh.Env) {
+	if *flagChildD71 {
+		budget := 8 * time.Second
+		if env.Thorough {
+			budget = 40 * time.Second
+		}
+		b, _ := json.Marshal(runD71(env.Seed, budget))
+		os.WriteFile(*flagChildOut, b, 0o644)
+		return
+	}
 	if *flagChildD70 {
 		budget := 8 * time.Second
 		if env.Thorough {
